@@ -193,3 +193,17 @@ Theorem C04_nick_follow_moves_login :
                (ieq P newP = false -> forall e, In e (u_auth u') -> ieq P (snd e) = false).
 Proof. exact nick_follow_moves_login. Qed.
 Print Assumptions C04_nick_follow_moves_login.
+
+(* ---- the caches are CacheDicts that drop everything when they are full ---- *)
+
+(* The model writes the two halves of a cached answer with CacheDict's eviction
+   rule (table T04: size and __setitem__), so every theorem above that speaks of
+   reachable states (Inv) covers the states in which the dictionary filled up
+   between the two writes.  In all of them users.setUser refuses only with
+   DuplicateHostmask - never with a KeyError out of invalidateCache (repair of
+   C04.F28: the other half of an entry is removed with pop(key, None)). *)
+Theorem C04_setUser_only_refuses :
+  forall t now s id u e,
+    CacheInv s -> snd (setUser t now s id u) = Raise e -> e = DuplicateHostmask.
+Proof. exact setUser_only_refuses. Qed.
+Print Assumptions C04_setUser_only_refuses.
